@@ -264,6 +264,31 @@ func (a *Actor) Next(timeout time.Duration) (Event, bool) {
 	}
 }
 
+// Peek waits up to timeout for an event to be available and returns it without consuming it.
+func (a *Actor) Peek(timeout time.Duration) (Event, bool) {
+	deadline := time.NewTimer(timeout)
+	defer deadline.Stop()
+	for {
+		a.mu.Lock()
+		if len(a.queue) > 0 {
+			e := a.queue[0]
+			a.mu.Unlock()
+			return e, true
+		}
+		a.mu.Unlock()
+		select {
+		case <-a.notify:
+			// re-arm for the consumer
+			select {
+			case a.notify <- struct{}{}:
+			default:
+			}
+		case <-deadline.C:
+			return Event{}, false
+		}
+	}
+}
+
 // NextPauseOrDone skips observe-only events (returning them in seen) until the actor pauses or ends.
 func (a *Actor) NextPauseOrDone(timeout time.Duration) (e Event, seen []string, ok bool) {
 	for {
